@@ -7,6 +7,7 @@ import (
 
 	"github.com/bilibili/smgo/sm2"
 	"github.com/bilibili/smgo/sm3"
+	"github.com/bilibili/smgo/sm4"
 )
 
 func sameArray(a, b []byte) bool {
@@ -231,6 +232,85 @@ func runC10(c *Ctx) {
 			}
 			view := fmt.Sprintf("ok %s shares=%v inputs=%s again=%s", hx(out1), shares, map[bool]string{true: "unchanged", false: "changed"}[same], map[bool]string{true: "same", false: "different"}[bytes.Equal(out1, out2)])
 			c.CheckModel("sm3.sum", cl+"/slice-model", fmt.Sprintf("sm3.sumglue %s %s %d", hx(msg), hx(in), cap(in)), view)
+		}
+	}
+	// every input handed over as a SUB-SLICE of one record with spare capacity behind it (an `append` into an
+	// argument would land in the neighbouring field): the whole record must be unchanged afterwards
+	for it := 0; it < 6; it++ {
+		kp := randKey(c)
+		id, msg := c.rng.Bytes(16+it), c.rng.Bytes(40+7*it)
+		k := randK(c)
+		r0, s0, _ := sm2.Sign(id, kp.px, kp.py, &scriptReader{items: dataScript(be32(k))}, kp.priv, msg)
+		// layout: px | r | s | py | id | msg | priv | e | pad     (px is followed by r so that px[:32] has r in its capacity)
+		e := c.rng.Bytes(32)
+		var rec []byte
+		off := map[string][2]int{}
+		add := func(name string, b []byte) {
+			off[name] = [2]int{len(rec), len(rec) + len(b)}
+			rec = append(rec, b...)
+		}
+		add("px", kp.px)
+		add("r", r0)
+		add("s", s0)
+		add("py", kp.py)
+		add("id", id)
+		add("msg", msg)
+		add("priv", kp.priv)
+		add("e", e)
+		rec = append(rec, c.rng.Bytes(64)...)
+		sl := func(name string) []byte { o := off[name]; return rec[o[0]:o[1]] } // cap reaches to the end of rec
+		snap := append([]byte(nil), rec...)
+		ops := []struct {
+			name string
+			f    func()
+		}{
+			{"ZA", func() { sm2.ZA(sl("id"), sl("px"), sl("py")) }},
+			{"Verify", func() { sm2.Verify(sl("id"), sl("px"), sl("py"), sl("msg"), sl("r"), sl("s")) }},
+			{"VerifyHashed", func() { sm2.VerifyHashed(sl("px"), sl("py"), sl("e"), sl("r"), sl("s")) }},
+			{"Sign", func() { sm2.Sign(sl("id"), sl("px"), sl("py"), &scriptReader{items: dataScript(be32(k))}, sl("priv"), sl("msg")) }},
+			{"SignHashed", func() { sm2.SignHashed(&scriptReader{items: dataScript(be32(k))}, sl("priv"), sl("e")) }},
+			{"DerivePublic", func() { sm2.DerivePublic(sl("priv")) }},
+			{"CheckOnCurve", func() { sm2.CheckOnCurve(sl("px"), sl("py")) }},
+			{"TestPrivateKey", func() { sm2.TestPrivateKey(sl("priv")) }},
+			{"SM3.Write", func() { h := sm3.New(); h.Write(sl("id")); h.Write(sl("msg")); h.Sum(nil) }},
+			{"SumSM3", func() { sm3.SumSM3(sl("msg")) }},
+		}
+		for _, op := range ops {
+			res := try(func() string { op.f(); return "ok" })
+			cl := "subslice-inputs/" + op.name
+			req := fmt.Sprintf("sm2/sm3 %s on sub-slices of one record (px|r|s|py|id|msg|priv|e|pad), it=%d", op.name, it)
+			c.Case("inputs.record", cl, false, req)
+			if res != "ok" || !bytes.Equal(rec, snap) {
+				i := 0
+				for i < len(rec) && rec[i] == snap[i] {
+					i++
+				}
+				c.Disagree(Disagreement{Kind: "impl!=spec", Class: cl + "/record-modified", Request: req, Impl: fmt.Sprintf("%s; first modified byte at offset %d of the record", res, i), Spec: "record unchanged", Stream: "inputs.record"})
+				copy(rec, snap)
+			}
+		}
+		// and the verification still succeeds on the untouched record
+		if ok, _ := sm2.Verify(sl("id"), sl("px"), sl("py"), sl("msg"), sl("r"), sl("s")); !ok {
+			c.Disagree(Disagreement{Kind: "impl!=spec", Class: "subslice-inputs/verify-after", Request: "verify on record", Impl: "false", Spec: "true", Stream: "inputs.record"})
+		}
+	}
+	// SM4: key and blocks as sub-slices with spare capacity
+	asmOK0 := sm4.VerifCandoAsm()
+	for _, accel := range []bool{true, false} {
+		rec := c.rng.Bytes(16 + 16 + 64)
+		snap := append([]byte(nil), rec...)
+		sm4.VerifSetCandoAsm(accel && asmOK0)
+		blk, err := sm4.NewCipher(rec[0:16])
+		sm4.VerifSetCandoAsm(asmOK0)
+		cl := fmt.Sprintf("subslice-inputs/sm4/accel=%v", accel)
+		c.Case("inputs.record", cl, false, "sm4 NewCipher/Encrypt on sub-slices")
+		if err == nil {
+			out := make([]byte, 16)
+			blk.Encrypt(out, rec[16:32])
+			blk.Decrypt(out, rec[16:32])
+		}
+		if !bytes.Equal(rec, snap) {
+			c.Disagree(Disagreement{Kind: "impl!=spec", Class: cl + "/record-modified", Request: "sm4 on record", Impl: "modified", Spec: "unchanged", Stream: "inputs.record"})
 		}
 	}
 	// SM2 entry points do not modify their inputs; repeated calls agree
